@@ -136,9 +136,10 @@ fn encode_stage(rng: &mut Rng, name: &str, plain: &[u8], with_pred: bool) -> (Ve
                     body = enc::png_encode(plain, rb, enc::png_bpp(colors, bpc), &types);
                     tag = "png";
                 } else if pred == 2 {
-                    // TIFF predictor: the decoder passes the data through (C07's finding); for C08
-                    // the stream carries the plaintext itself so that both paths are comparable.
-                    tag = "tiff-passthrough";
+                    // TIFF predictor 2: horizontal differencing per row (a trailing partial row is
+                    // left alone by encoder and decoder alike)
+                    body = enc::tiff2_encode(plain, columns, colors, bpc);
+                    tag = "tiff";
                 } else if pred >= 10 {
                     tag = "png-misaligned";
                 }
